@@ -97,6 +97,16 @@ def diag_names(stderr, files_with_problem):
     return any(os.path.basename(f) in stderr for f in files_with_problem)
 
 
+def out_stem(lang, rel, mode):
+    """stem of the output file the items of source file `rel` go to (Workspace!FileName)"""
+    if mode == "single":
+        return "out"
+    parts = rel.split("/")
+    src = [i for i, p in enumerate(parts[:-1]) if p == "src"]
+    crate = parts[src[-1] - 1].replace("-", "_") if src and src[-1] > 0 else "out"
+    return "".join(w.capitalize() for w in crate.split("_")) if lang == "swift" else crate
+
+
 def run_vector(work, idx, v, trace=True):
     d = os.path.join(work, f"v{idx}")
     files = tree_for(v)
@@ -127,7 +137,8 @@ def run_vector(work, idx, v, trace=True):
     written = [f for f in cli.snapshot(out)] if os.path.isdir(out) else []
     stems = {os.path.splitext(os.path.basename(f))[0] for f in files}
     names = {"Edge": "edge", "EDGE": "edge", "Good": "good", "ZGood": "zgood", "Événement": "edge", "Inner": "inner"}
-    header, events = cli.read_trace(tr, stems, names, 2, 100, r["code"] if r["exit"] != "timeout" else None) if trace else (None, [])
+    out_of = {os.path.splitext(os.path.basename(f))[0]: out_stem(v["lang"], f, v["mode"]) for f in files}
+    header, events = cli.read_trace(tr, stems, names, 2, 100, r["code"] if r["exit"] != "timeout" else None, out_of, v["mode"] == "single") if trace else (None, [])
     return r, written, header, events, files
 
 
@@ -228,7 +239,7 @@ def project_schedule(states):
 def replay_model_schedules(chk, work):
     """TLC explores the protocol; its counter-examples are predictions that are replayed through the gates."""
     runs = []
-    for cfg, must_hold in (("clean", True), ("err", True), ("panic", False), ("latesend", False)):
+    for cfg, must_hold in (("clean", True), ("err", True), ("folder", True), ("panic", False), ("latesend", False)):
         res = common.run_tlc("MC_Pipeline", cfg=f"MC_Pipeline_{cfg}", workers=4, timeout=600, allow_violation=True)
         chk.add_tlc(f"MC_Pipeline[{cfg}]", res)
         if must_hold and res.violation:
